@@ -215,7 +215,7 @@ def rule_at_least_one_sweep(eng, rep, rule="C09-6.every-dykstra-call-performs-at
         else:
             rep.bad(rule, site, "%s|dykstra-may-run-zero-sweeps|%s" % (ci.caller.fid, "default" if isinstance(a, tuple) or a is None else ekey(a)[:30]),
                     "this dykstra call can run zero sweeps (iteration limit `%s` has lower bound %s): it then returns its input unprojected" % (ekey(a)[:40] if a is not None and not isinstance(a, tuple) else "default", lb))
-    rep.require_count(rule, "dykstra call sites", n, 8)
+    rep.require_count(rule, "dykstra call sites", n, 3)      # x0 projection, the clamp of evaluated points, one step routine (today 8)
 
 
 def run(eng, rep):
